@@ -2,6 +2,7 @@ package swarm
 
 import (
 	"context"
+	"github.com/libp2p/go-libp2p/x/verifhook"
 	"os"
 	"strconv"
 	"sync"
@@ -218,6 +219,7 @@ func (dl *dialLimiter) clearAllPeerDials(p peer.ID) {
 // it held during the dial.
 func (dl *dialLimiter) executeDial(j *dialJob) {
 	defer dl.finishedDial(j)
+	verifhook.AtArg("swarm.limiter.executeDial", j.addr)
 	if j.cancelled() {
 		return
 	}
